@@ -105,6 +105,12 @@ type Deviation struct {
 	// creates it).
 	Implicit bool      `json:"implicit,omitempty"`
 	Stmts   []DevStmt `json:"stmts"`
+	// Spelt (with Missing and TargetMod): a near miss (c08near.go).  The dump path the written steps
+	// spell ("/b/top/port" for /b:top/b:port) in the tree TargetMod; the runner lets the specification
+	// decide on the Go dump of the run without the deviating modules whether it names a node (then it
+	// is an ordinary target) or not (then the deviation must be reported).  Near: which steps were left out.
+	Spelt string `json:"spelt,omitempty"`
+	Near  string `json:"near,omitempty"`
 }
 
 // C08Case is one base schema with its deviating modules.
@@ -572,6 +578,7 @@ func C08Exhaustive() []C08Case {
 	out = append(out, c08ShadowCases()...)
 	out = append(out, c08RevisionCases()...)
 	out = append(out, c08AugmentedCases()...)
+	out = append(out, c08NearMissCases()...)
 	return out
 }
 
@@ -1423,6 +1430,35 @@ func C08Random(r *rand.Rand) C08Case {
 				}
 			}
 			c.Devs = append(c.Devs, d)
+		}
+	}
+	// near misses (c08near.go): about one deviation in twenty (one in six of those whose path runs through a choice or case) leaves out steps of its path other than the
+	// last, drawn from a generator of their own so that the rest of the case is what it was without them
+	{
+		kw := map[string]string{}
+		for _, t := range tgts {
+			kw[t.m.Name+" "+t.dump] = t.kw
+		}
+		r2 := c08NearSeed(c.BaseTexts)
+		for i := range c.Devs {
+			d := &c.Devs[i]
+			if d.Missing {
+				continue
+			}
+			mn := d.TargetMod
+			if j := strings.IndexByte(mn, '@'); j >= 0 {
+				mn = mn[:j]
+			}
+			kindOf := func(dump string) string { return kw[mn+" "+dump] }
+			// (one in six when the path runs through a choice or case)
+			odds := 20
+			if c08ThroughChoice(d, kindOf) {
+				odds = 6
+			}
+			if r2.Intn(odds) != 0 {
+				continue
+			}
+			c08NearMiss(r2, d, kindOf)
 		}
 	}
 	// now and then the deviating modules define top-level nodes with the names of their top-level
